@@ -26,7 +26,7 @@ def main(tier, replay, t0):
         for x in c.cfgs:
             if c.gen[x["id"]].get("result") != "ok":
                 continue
-            base = {"wgsl": c.wgsl, "options": x["opt"]}
+            base = {"case_id": c.id, "wgsl": c.wgsl, "options": x["opt"]}
             if not camp.module_ok(c.id, x["id"]):
                 lost += 1
                 diags = camp.rustc.get("%s/%s/m.rs" % (c.id, x["id"]), {}).get("diags", [])
